@@ -254,7 +254,7 @@ class _Out:
         self.n += n
         if key is not None:
             self.keys.append(key)
-        if sample is not None and len(self.samples) < 3:
+        if sample is not None and len(self.samples) < 3 and all(x.get('contract') != sample.get('contract') for x in self.samples):
             self.samples.append(sample)
 
     def v(self, key, what, witness=None, native=None):
@@ -522,6 +522,15 @@ def _edit_contracts(m, skel, orb, r, out, limit=3):
 
 
 def _molecule(arg):
+    res = _molecule_(arg)
+    for v in res[3]:        # every witness names the input text: replay re-runs exactly this molecule (all draws are seeded by it)
+        if isinstance(v[2], dict):
+            v[2].setdefault('input', arg[0])
+            v[2].setdefault('wedge_contracts', arg[2])
+    return res
+
+
+def _molecule_(arg):
     s, source, do_wedge = arg
     from chython import mdl_mol
     from chython.exceptions import NotChiral
@@ -701,20 +710,20 @@ def bounded(run):
     run.bound(f'marks on non-stereogenic centres: {len(texts)} generated texts (two identical terminal substituents / H2 / symmetric ring / '
               f'sp2 / triple bond, tetrahedral, double-bond and allene marks)')
     gaps, notes = 0, {}
-    for nc, keys, samples, viol, g, nt in pmap(_nonstereo, [texts[i:i + n] for i in range(0, len(texts), n)]):
+    for ci, (nc, keys, samples, viol, g, nt) in enumerate(pmap(_nonstereo, [texts[i:i + n] for i in range(0, len(texts), n)])):
         run.cases += nc
         for kx in keys:
             run.case(0, key=kx)
-        for sx in samples:
+        for sx in samples[:1 if ci == 0 else 0]:
             run.case(0, sample=sx)
         for v in viol:
             run.violation(v[0], v[1], witness=v[2], native=v[3])
         for kx, c in nt.items():
             notes[kx] = notes.get(kx, 0) + c
 
-    ncorp = 400 if quick else None
+    ncorp = 1200 if quick else None
     corpus = D.corpus_sample(ncorp, 'c12')
-    nwedge = 150 if quick else 1200
+    nwedge = 400 if quick else 1500
     items = [(s, 'generated', True) for s in GENERATED + _generated_labelled()]
     w = 0
     for s in corpus:
@@ -726,12 +735,15 @@ def bounded(run):
               f'(with mirror images and single E/Z changes) above; <= 4000 automorphisms; 7 written spellings of <= 4 labelings each; '
               f'all 24 / 6 neighbour permutations (+ 3-prefixes, + explicit H in every position) of every labelled centre in 2 labelings; '
               f'<= 3 edited centres x 3 edits per labelled molecule; wedge write/read on <= {nwedge} labelled corpus molecules')
+    shown = set()
     for nc, keys, samples, viol, g, nt in pmap(_molecule, items, chunksize=4):
         run.cases += nc
         for kx in keys:
             run.case(0, key=kx)
         for sx in samples:
-            run.case(0, sample=sx)
+            if sx.get('contract') not in shown:     # one sample per contract in the evidence
+                shown.add(sx.get('contract'))
+                run.case(0, sample=sx)
         for v in viol:
             run.violation(v[0], v[1], witness=v[2], native=v[3])
         gaps += g
@@ -768,7 +780,9 @@ def replay(rec):
         m = smiles(w['text'])
         print(w['text'], '->', m)
         return not _n_labels(m)
-    res = _molecule((w.get('smiles') or '', 'replay', True))
+    if rec.get('seed') is not None:
+        env.SEED = rec['seed']
+    res = _molecule((w.get('input') or w.get('smiles') or '', 'replay', w.get('wedge_contracts', True)))
     bad = [v for v in res[3] if v[0] == key]
     for v in bad:
         print(v[1])
